@@ -34,6 +34,14 @@ fn locate(k: Kind, entries: &[refenc::RefEntry], off: usize) -> (String, String)
 }
 
 pub fn oracle(p: &Program) -> Vec<Violation> {
+    // a caller overwriting the FADT builder's pub Length field is C01's subject only (see C02)
+    let sanitized;
+    let p = if p.kind == Kind::Fadt {
+        sanitized = super::c02::sanitize(p);
+        &sanitized
+    } else {
+        p
+    };
     let flat = flatten(p);
     let mut tr = Tracker::new(p, &flat);
     let mut out: Vec<Violation> = Vec::new();
